@@ -313,11 +313,15 @@ theorem cex_ill_typed_f32 :
     KnownBoundOutsideType c = true ∧ leafJ rx0 true ⟨c, none⟩ (primOf c) (memberAttrs rx0.compiles true (.prim c)) (.sc (.num ⟨0, 0, true⟩)) = false := by
   decide +kernel
 
-/-- `type: number, maximum: 1e-7` renders `1e-7.0`, which is not a literal -/
-theorem cex_ill_typed_exponent :
+/-- `type: number, maximum: 1e-7` renders `1e-7` and `1e16` renders `1e+16`: float literals as they stand (the `.0`
+that `format_number` used to append to them — finding F16-8 — is gone since the `fix:` commit); the bound is then
+enforced: 1 is rejected under `maximum: 1e-7`, 0 is accepted -/
+theorem exponent_bound_is_literal :
     let c : Cons := { ty := .single .number, maximum := some ⟨1, 7, true⟩ }
-    KnownFloatExponentLiteral c = true ∧ (renderNum .f64 ⟨1, 7, true⟩).text = "1e-7.0".toList ∧
-      leafJ rx0 true ⟨c, none⟩ (primOf c) (memberAttrs rx0.compiles true (.prim c)) (.sc (.num ⟨0, 0, true⟩)) = false := by
+    KnownFloatExponentLiteral c = false ∧ (renderNum .f64 ⟨1, 7, true⟩).text = "1e-7".toList ∧
+      (renderNum .f64 ⟨1, 7, true⟩).isBad = false ∧ (renderNum .f64 ⟨10 ^ 16, 0, true⟩).text = "1e+16".toList ∧
+      leafJ rx0 true ⟨c, none⟩ (primOf c) (memberAttrs rx0.compiles true (.prim c)) (.sc (.num ⟨0, 0, true⟩)) = true ∧
+      leafJ rx0 true ⟨c, none⟩ (primOf c) (memberAttrs rx0.compiles true (.prim c)) (.sc (.num ⟨1, 0, true⟩)) = true := by
   decide +kernel
 
 /-- `format: int8, maximum: -200` renders `max = i8::MIN`: `-128` is accepted although `-128 ≤ -200` is false -/
